@@ -1,4 +1,5 @@
 import SimbodyModel.C46
+import SimbodyModel.C46_key
 import SimbodyModel.Gen.Statics
 import Mathlib.Data.List.Basic
 import Mathlib.Data.List.Induction
@@ -16,135 +17,136 @@ import Mathlib.Data.List.Induction
   schedule equals its stand-alone trajectory, and repeating it gives the same result.
 -/
 namespace C46
-open Cls
+open Cls Sect
 
 /-- Hand-reviewed allow-list: normalised object name ↦ class.  Source locations are given per group.
-A `guard variable for X` entry is classified through its object `X`. -/
-def allowlist : List (String × Cls) := [
+A `guard variable for X` entry is classified through its object `X`.  `key! "name"` is the name as a number
+(SimbodyModel/C46_key.lean) — the kernel compares numbers, the reader reads the literal. -/
+def allowlist : List (Nat × Cls) := [
   -- SimTKcommon/src/Constants / Scalar.h, Vec.h, DecorativeGeometry: `extern const` objects with dynamic initialisers,
   -- written once by the static initialiser of libSimTKcommon, declared const in every header
-  ("SimTK::Black", constAfterInit), ("SimTK::Blue", constAfterInit), ("SimTK::CubeRoot2", constAfterInit),
-  ("SimTK::CubeRoot3", constAfterInit), ("SimTK::Cyan", constAfterInit), ("SimTK::E", constAfterInit),
-  ("SimTK::Eps", constAfterInit), ("SimTK::Gray", constAfterInit), ("SimTK::Green", constAfterInit),
-  ("SimTK::GroundIndex", constAfterInit), ("SimTK::I", constAfterInit), ("SimTK::Infinity", constAfterInit),
-  ("SimTK::InvalidContactSurfaceIndex", constAfterInit), ("SimTK::InvalidMobilizedBodyIndex", constAfterInit),
-  ("SimTK::InvalidSubsystemIndex", constAfterInit), ("SimTK::InvalidSubtreeBodyIndex", constAfterInit),
-  ("SimTK::InvalidSubtreeQIndex", constAfterInit), ("SimTK::InvalidSubtreeUIndex", constAfterInit),
-  ("SimTK::LeastNegativeReal", constAfterInit), ("SimTK::LeastPositiveReal", constAfterInit),
-  ("SimTK::Ln10", constAfterInit), ("SimTK::Ln2", constAfterInit), ("SimTK::Log10E", constAfterInit),
-  ("SimTK::Log2E", constAfterInit), ("SimTK::LosslessNumDigitsReal", constAfterInit), ("SimTK::Magenta", constAfterInit),
-  ("SimTK::MinusOne", constAfterInit), ("SimTK::MostNegativeReal", constAfterInit),
-  ("SimTK::MostPositiveReal", constAfterInit), ("SimTK::NaN", constAfterInit), ("SimTK::NegXAxis", constAfterInit),
-  ("SimTK::NegYAxis", constAfterInit), ("SimTK::NegZAxis", constAfterInit), ("SimTK::NumDigitsReal", constAfterInit),
-  ("SimTK::One", constAfterInit), ("SimTK::OneEighth", constAfterInit), ("SimTK::OneFifth", constAfterInit),
-  ("SimTK::OneFourth", constAfterInit), ("SimTK::OneHalf", constAfterInit), ("SimTK::OneNinth", constAfterInit),
-  ("SimTK::OneOverPi", constAfterInit), ("SimTK::OneOverSqrt2", constAfterInit), ("SimTK::OneOverSqrt3", constAfterInit),
-  ("SimTK::OneSeventh", constAfterInit), ("SimTK::OneSixth", constAfterInit), ("SimTK::OneThird", constAfterInit),
-  ("SimTK::Orange", constAfterInit), ("SimTK::Pi", constAfterInit), ("SimTK::Purple", constAfterInit),
-  ("SimTK::Red", constAfterInit), ("SimTK::SignificantReal", constAfterInit), ("SimTK::Sqrt2", constAfterInit),
-  ("SimTK::Sqrt3", constAfterInit), ("SimTK::SqrtEps", constAfterInit), ("SimTK::Three", constAfterInit),
-  ("SimTK::TinyReal", constAfterInit), ("SimTK::Two", constAfterInit), ("SimTK::White", constAfterInit),
-  ("SimTK::XAxis", constAfterInit), ("SimTK::YAxis", constAfterInit), ("SimTK::Yellow", constAfterInit),
-  ("SimTK::ZAxis", constAfterInit), ("SimTK::Zero", constAfterInit),
+  (key! "SimTK::Black", constAfterInit), (key! "SimTK::Blue", constAfterInit), (key! "SimTK::CubeRoot2", constAfterInit),
+  (key! "SimTK::CubeRoot3", constAfterInit), (key! "SimTK::Cyan", constAfterInit), (key! "SimTK::E", constAfterInit),
+  (key! "SimTK::Eps", constAfterInit), (key! "SimTK::Gray", constAfterInit), (key! "SimTK::Green", constAfterInit),
+  (key! "SimTK::GroundIndex", constAfterInit), (key! "SimTK::I", constAfterInit), (key! "SimTK::Infinity", constAfterInit),
+  (key! "SimTK::InvalidContactSurfaceIndex", constAfterInit), (key! "SimTK::InvalidMobilizedBodyIndex", constAfterInit),
+  (key! "SimTK::InvalidSubsystemIndex", constAfterInit), (key! "SimTK::InvalidSubtreeBodyIndex", constAfterInit),
+  (key! "SimTK::InvalidSubtreeQIndex", constAfterInit), (key! "SimTK::InvalidSubtreeUIndex", constAfterInit),
+  (key! "SimTK::LeastNegativeReal", constAfterInit), (key! "SimTK::LeastPositiveReal", constAfterInit),
+  (key! "SimTK::Ln10", constAfterInit), (key! "SimTK::Ln2", constAfterInit), (key! "SimTK::Log10E", constAfterInit),
+  (key! "SimTK::Log2E", constAfterInit), (key! "SimTK::LosslessNumDigitsReal", constAfterInit), (key! "SimTK::Magenta", constAfterInit),
+  (key! "SimTK::MinusOne", constAfterInit), (key! "SimTK::MostNegativeReal", constAfterInit),
+  (key! "SimTK::MostPositiveReal", constAfterInit), (key! "SimTK::NaN", constAfterInit), (key! "SimTK::NegXAxis", constAfterInit),
+  (key! "SimTK::NegYAxis", constAfterInit), (key! "SimTK::NegZAxis", constAfterInit), (key! "SimTK::NumDigitsReal", constAfterInit),
+  (key! "SimTK::One", constAfterInit), (key! "SimTK::OneEighth", constAfterInit), (key! "SimTK::OneFifth", constAfterInit),
+  (key! "SimTK::OneFourth", constAfterInit), (key! "SimTK::OneHalf", constAfterInit), (key! "SimTK::OneNinth", constAfterInit),
+  (key! "SimTK::OneOverPi", constAfterInit), (key! "SimTK::OneOverSqrt2", constAfterInit), (key! "SimTK::OneOverSqrt3", constAfterInit),
+  (key! "SimTK::OneSeventh", constAfterInit), (key! "SimTK::OneSixth", constAfterInit), (key! "SimTK::OneThird", constAfterInit),
+  (key! "SimTK::Orange", constAfterInit), (key! "SimTK::Pi", constAfterInit), (key! "SimTK::Purple", constAfterInit),
+  (key! "SimTK::Red", constAfterInit), (key! "SimTK::SignificantReal", constAfterInit), (key! "SimTK::Sqrt2", constAfterInit),
+  (key! "SimTK::Sqrt3", constAfterInit), (key! "SimTK::SqrtEps", constAfterInit), (key! "SimTK::Three", constAfterInit),
+  (key! "SimTK::TinyReal", constAfterInit), (key! "SimTK::Two", constAfterInit), (key! "SimTK::White", constAfterInit),
+  (key! "SimTK::XAxis", constAfterInit), (key! "SimTK::YAxis", constAfterInit), (key! "SimTK::Yellow", constAfterInit),
+  (key! "SimTK::ZAxis", constAfterInit), (key! "SimTK::Zero", constAfterInit),
   -- NTraits.h: `static const T c = …; return c;` function-local constants
-  ("SimTK::NTraits<*>::getInfinity()::c", constAfterInit), ("SimTK::NTraits<*>::getLosslessNumDigits()::c", constAfterInit),
-  ("SimTK::NTraits<*>::getNaN()::c", constAfterInit), ("SimTK::NTraits<*>::getNumDigits()::c", constAfterInit),
-  ("SimTK::NTraits<*>::getSqrtEps()::c", constAfterInit), ("SimTK::NTraits<*>::getTiny()::c", constAfterInit),
-  ("SimTK::RTraits<*>::getSignificant()::c", constAfterInit),
+  (key! "SimTK::NTraits<*>::getInfinity()::c", constAfterInit), (key! "SimTK::NTraits<*>::getLosslessNumDigits()::c", constAfterInit),
+  (key! "SimTK::NTraits<*>::getNaN()::c", constAfterInit), (key! "SimTK::NTraits<*>::getNumDigits()::c", constAfterInit),
+  (key! "SimTK::NTraits<*>::getSqrtEps()::c", constAfterInit), (key! "SimTK::NTraits<*>::getTiny()::c", constAfterInit),
+  (key! "SimTK::RTraits<*>::getSignificant()::c", constAfterInit),
   -- NiceTypeName.h / NiceTypeName.cpp: type-name strings computed once from typeid(T).name(); regex table
-  ("SimTK::NiceTypeName<*>::namestr()::canonical", constAfterInit), ("SimTK::NiceTypeName<*>::namestr()::str", constAfterInit),
-  ("SimTK::canonicalizeTypeName(std::__cxx11::basic_string<*>&&)::subs", constAfterInit),
+  (key! "SimTK::NiceTypeName<*>::namestr()::canonical", constAfterInit), (key! "SimTK::NiceTypeName<*>::namestr()::str", constAfterInit),
+  (key! "SimTK::canonicalizeTypeName(std::__cxx11::basic_string<*>&&)::subs", constAfterInit),
   -- index types: `static const XIndex invalid;` in SimTK_DEFINE_UNIQUE_INDEX_TYPE::Invalid()
-  ("SimTK::CableSpanIndex::Invalid()::invalid", constAfterInit), ("SimTK::CableSpanObstacleIndex::Invalid()::invalid", constAfterInit),
-  ("SimTK::CableSpanViaPointIndex::Invalid()::invalid", constAfterInit), ("SimTK::CacheEntryIndex::Invalid()::invalid", constAfterInit),
-  ("SimTK::DiscreteVariableIndex::Invalid()::invalid", constAfterInit), ("SimTK::MobilizedBodyIndex::Invalid()::invalid", constAfterInit),
+  (key! "SimTK::CableSpanIndex::Invalid()::invalid", constAfterInit), (key! "SimTK::CableSpanObstacleIndex::Invalid()::invalid", constAfterInit),
+  (key! "SimTK::CableSpanViaPointIndex::Invalid()::invalid", constAfterInit), (key! "SimTK::CacheEntryIndex::Invalid()::invalid", constAfterInit),
+  (key! "SimTK::DiscreteVariableIndex::Invalid()::invalid", constAfterInit), (key! "SimTK::MobilizedBodyIndex::Invalid()::invalid", constAfterInit),
   -- `static const` empty / identity / zero objects returned by reference
-  ("SimTK::Xml::Element::getValue() const::null", constAfterInit),
-  ("SimTK::CompliantContactSubsystemImpl::getContactForceById(SimTK::State const&, SimTK::ContactId) const::invalidForce", constAfterInit),
-  ("SimTK::ConstraintImpl::getBodyTransformFromState(SimTK::State const&, SimTK::ConstrainedBodyIndex) const::X_AA", constAfterInit),
-  ("SimTK::ConstraintImpl::getBodyVelocityFromState(SimTK::State const&, SimTK::ConstrainedBodyIndex) const::V_AA", constAfterInit),
-  ("SimTK::ContactSnapshot::getContactById(SimTK::ContactId) const::empty", constAfterInit),
-  ("SimTK::SemiExplicitEulerTimeStepper::performSimultaneousImpact(SimTK::State const&, SimTK::Vector_<*>&, SimTK::Vector_<*>&)::noExpansion", constAfterInit),
-  ("SimbodyMatterSubsystemRep::getAllParticleAccelerations(SimTK::State const&) const::v", constAfterInit),
-  ("SimbodyMatterSubsystemRep::getAllParticleLocations(SimTK::State const&) const::v", constAfterInit),
-  ("SimbodyMatterSubsystemRep::getAllParticleVelocities(SimTK::State const&) const::v", constAfterInit),
-  ("SimbodyMatterSubsystemRep::updAllParticleLocations(SimTK::State&) const::v", constAfterInit),
-  ("SimbodyMatterSubsystemRep::updAllParticleVelocities(SimTK::State&) const::v", constAfterInit),
+  (key! "SimTK::Xml::Element::getValue() const::null", constAfterInit),
+  (key! "SimTK::CompliantContactSubsystemImpl::getContactForceById(SimTK::State const&, SimTK::ContactId) const::invalidForce", constAfterInit),
+  (key! "SimTK::ConstraintImpl::getBodyTransformFromState(SimTK::State const&, SimTK::ConstrainedBodyIndex) const::X_AA", constAfterInit),
+  (key! "SimTK::ConstraintImpl::getBodyVelocityFromState(SimTK::State const&, SimTK::ConstrainedBodyIndex) const::V_AA", constAfterInit),
+  (key! "SimTK::ContactSnapshot::getContactById(SimTK::ContactId) const::empty", constAfterInit),
+  (key! "SimTK::SemiExplicitEulerTimeStepper::performSimultaneousImpact(SimTK::State const&, SimTK::Vector_<*>&, SimTK::Vector_<*>&)::noExpansion", constAfterInit),
+  (key! "SimbodyMatterSubsystemRep::getAllParticleAccelerations(SimTK::State const&) const::v", constAfterInit),
+  (key! "SimbodyMatterSubsystemRep::getAllParticleLocations(SimTK::State const&) const::v", constAfterInit),
+  (key! "SimbodyMatterSubsystemRep::getAllParticleVelocities(SimTK::State const&) const::v", constAfterInit),
+  (key! "SimbodyMatterSubsystemRep::updAllParticleLocations(SimTK::State&) const::v", constAfterInit),
+  (key! "SimbodyMatterSubsystemRep::updAllParticleVelocities(SimTK::State&) const::v", constAfterInit),
   -- file-scope `static const` with dynamic initialiser (CableSpan.cpp, ExponentialSpringForce / contact defaults, decorations)
-  ("(anonymous namespace)::BinormalAxis", constAfterInit), ("(anonymous namespace)::NormalAxis", constAfterInit),
-  ("(anonymous namespace)::TangentAxis", constAfterInit), ("(anonymous namespace)::DefMinSignificantForce", constAfterInit),
-  ("DefaultBodyColor", constAfterInit), ("DefaultPointColor", constAfterInit),
+  (key! "(anonymous namespace)::BinormalAxis", constAfterInit), (key! "(anonymous namespace)::NormalAxis", constAfterInit),
+  (key! "(anonymous namespace)::TangentAxis", constAfterInit), (key! "(anonymous namespace)::DefMinSignificantForce", constAfterInit),
+  (key! "DefaultBodyColor", constAfterInit), (key! "DefaultPointColor", constAfterInit),
   -- option-name tables of InteriorPointOptimizer::optimize (static const arrays), version string of cpoly, gcvspl constant
-  ("SimTK::InteriorPointOptimizer::optimize(SimTK::Vector_<*>&)::advancedStrOptions", constAfterInit),
-  ("SimTK::CPoly<*>::_V_", constAfterInit), ("c_b6", constAfterInit),
+  (key! "SimTK::InteriorPointOptimizer::optimize(SimTK::Vector_<*>&)::advancedStrOptions", constAfterInit),
+  (key! "SimTK::CPoly<*>::_V_", constAfterInit), (key! "c_b6", constAfterInit),
   -- nvector_SimTK.cpp: `const N_Vector_Ops_SimTK N_Vector_Ops_SimTK::Ops;` the constant function table handed to SUNDIALS
-  ("N_Vector_Ops_SimTK::Ops", constAfterInit),
+  (key! "N_Vector_Ops_SimTK::Ops", constAfterInit),
   -- libstdc++ <regex> internals instantiated in libSimTKcommon (static const tables / a constant char)
-  ("std::__detail::_AnyMatcher<*>::operator()(char) const::__nul", constAfterInit),
-  ("std::__cxx11::regex_traits<*>::lookup_collatename<*>(char const*, char const*) const::__collatenames", constAfterInit),
+  (key! "std::__detail::_AnyMatcher<*>::operator()(char) const::__nul", constAfterInit),
+  (key! "std::__cxx11::regex_traits<*>::lookup_collatename<*>(char const*, char const*) const::__collatenames", constAfterInit),
   -- TinyXML (vendored): entity table is const data; errorString table const; condenseWhiteSpace is a process-wide
   -- XML *text-handling* option changed only by Xml::setXmlCondenseWhiteSpace — no simulation code reads it
-  ("SimTK::TiXmlBase::entity", constAfterInit), ("SimTK::TiXmlBase::errorString", constAfterInit),
-  ("SimTK::TiXmlBase::condenseWhiteSpace", xmlOption),
+  (key! "SimTK::TiXmlBase::entity", constAfterInit), (key! "SimTK::TiXmlBase::errorString", constAfterInit),
+  (key! "SimTK::TiXmlBase::condenseWhiteSpace", xmlOption),
   -- thread_local: ParallelExecutorImpl::isWorker (set by each worker thread for itself), and the per-thread force
   -- accumulators of CalcForcesParallelTask (initialize() zeroes them before every use, finish() reads them)
-  ("SimTK::ParallelExecutorImpl::isWorker", threadScratch),
-  ("(anonymous namespace)::CalcForcesParallelTask::m_mobilityForceCacheLocalStatic", threadScratch),
-  ("(anonymous namespace)::CalcForcesParallelTask::m_mobilityForcesLocalStatic", threadScratch),
-  ("(anonymous namespace)::CalcForcesParallelTask::m_particleForceCacheLocalStatic", threadScratch),
-  ("(anonymous namespace)::CalcForcesParallelTask::m_particleForcesLocalStatic", threadScratch),
-  ("(anonymous namespace)::CalcForcesParallelTask::m_rigidBodyForceCacheLocalStatic", threadScratch),
-  ("(anonymous namespace)::CalcForcesParallelTask::m_rigidBodyForcesLocalStatic", threadScratch),
+  (key! "SimTK::ParallelExecutorImpl::isWorker", threadScratch),
+  (key! "(anonymous namespace)::CalcForcesParallelTask::m_mobilityForceCacheLocalStatic", threadScratch),
+  (key! "(anonymous namespace)::CalcForcesParallelTask::m_mobilityForcesLocalStatic", threadScratch),
+  (key! "(anonymous namespace)::CalcForcesParallelTask::m_particleForceCacheLocalStatic", threadScratch),
+  (key! "(anonymous namespace)::CalcForcesParallelTask::m_particleForcesLocalStatic", threadScratch),
+  (key! "(anonymous namespace)::CalcForcesParallelTask::m_rigidBodyForceCacheLocalStatic", threadScratch),
+  (key! "(anonymous namespace)::CalcForcesParallelTask::m_rigidBodyForcesLocalStatic", threadScratch),
   -- AssemblyCondition::calcGoal default implementation: `static Vector err; calcErrors(state, err);` — the callee
   -- resizes and fills `err` before it is read (shared scratch: not thread-safe, but no value survives a call)
-  ("SimTK::AssemblyCondition::calcGoal(SimTK::State const&, double&) const::err", scratchOverwritten),
+  (key! "SimTK::AssemblyCondition::calcGoal(SimTK::State const&, double&) const::err", scratchOverwritten),
   -- Random.cpp: seed handed to Random objects the user did not seed (documented: un-seeded generators differ)
-  ("SimTK::Random::RandomImpl::nextSeed", seedCounter),
+  (key! "SimTK::Random::RandomImpl::nextSeed", seedCounter),
   -- contact identities: monotone counters; ids are only compared for equality / used as map keys, relative order of the
   -- ids created by one simulation does not depend on the start value
-  ("SimTK::ContactImpl::createNewContactId()::nextAvailableId", idCounter),
-  ("SimTK::ContactImpl::createNewContactTypeId()::nextAvailableId", idCounter),
-  ("SimTK::ContactGeometryImpl::createNewContactGeometryTypeId()::nextAvailableId", idCounter),
-  ("SimTKIpopt::RegisteredOption::next_counter_", idCounter), ("SimTKIpopt::TaggedObject::unique_tag_", idCounter),
+  (key! "SimTK::ContactImpl::createNewContactId()::nextAvailableId", idCounter),
+  (key! "SimTK::ContactImpl::createNewContactTypeId()::nextAvailableId", idCounter),
+  (key! "SimTK::ContactGeometryImpl::createNewContactGeometryTypeId()::nextAvailableId", idCounter),
+  (key! "SimTKIpopt::RegisteredOption::next_counter_", idCounter), (key! "SimTKIpopt::TaggedObject::unique_tag_", idCounter),
   -- per-class type ids: `static const TypeId id = createNew…TypeId();` fixed at first use, then constant
-  ("SimTK::BrickHalfSpaceContactImpl::classTypeId()::tid", firstUseId), ("SimTK::BrokenContactImpl::classTypeId()::tid", firstUseId),
-  ("SimTK::CircularPointContactImpl::classTypeId()::tid", firstUseId), ("SimTK::EllipticalPointContactImpl::classTypeId()::tid", firstUseId),
-  ("SimTK::PointContactImpl::classTypeId()::tid", firstUseId), ("SimTK::TriangleMeshContactImpl::classTypeId()::tid", firstUseId),
-  ("SimTK::UntrackedContactImpl::classTypeId()::tid", firstUseId),
-  ("SimTK::ContactGeometry::Brick::Impl::classTypeId()::id", firstUseId), ("SimTK::ContactGeometry::Cylinder::Impl::classTypeId()::id", firstUseId),
-  ("SimTK::ContactGeometry::Ellipsoid::Impl::classTypeId()::id", firstUseId), ("SimTK::ContactGeometry::HalfSpace::Impl::classTypeId()::id", firstUseId),
-  ("SimTK::ContactGeometry::SmoothHeightMap::Impl::classTypeId()::id", firstUseId), ("SimTK::ContactGeometry::Sphere::Impl::classTypeId()::id", firstUseId),
-  ("SimTK::ContactGeometry::Torus::Impl::classTypeId()::id", firstUseId), ("SimTK::ContactGeometry::TriangleMesh::Impl::classTypeId()::id", firstUseId),
+  (key! "SimTK::BrickHalfSpaceContactImpl::classTypeId()::tid", firstUseId), (key! "SimTK::BrokenContactImpl::classTypeId()::tid", firstUseId),
+  (key! "SimTK::CircularPointContactImpl::classTypeId()::tid", firstUseId), (key! "SimTK::EllipticalPointContactImpl::classTypeId()::tid", firstUseId),
+  (key! "SimTK::PointContactImpl::classTypeId()::tid", firstUseId), (key! "SimTK::TriangleMeshContactImpl::classTypeId()::tid", firstUseId),
+  (key! "SimTK::UntrackedContactImpl::classTypeId()::tid", firstUseId),
+  (key! "SimTK::ContactGeometry::Brick::Impl::classTypeId()::id", firstUseId), (key! "SimTK::ContactGeometry::Cylinder::Impl::classTypeId()::id", firstUseId),
+  (key! "SimTK::ContactGeometry::Ellipsoid::Impl::classTypeId()::id", firstUseId), (key! "SimTK::ContactGeometry::HalfSpace::Impl::classTypeId()::id", firstUseId),
+  (key! "SimTK::ContactGeometry::SmoothHeightMap::Impl::classTypeId()::id", firstUseId), (key! "SimTK::ContactGeometry::Sphere::Impl::classTypeId()::id", firstUseId),
+  (key! "SimTK::ContactGeometry::Torus::Impl::classTypeId()::id", firstUseId), (key! "SimTK::ContactGeometry::TriangleMesh::Impl::classTypeId()::id", firstUseId),
   -- CollisionDetectionAlgorithm.cpp: (type id, type id) ↦ algorithm object; filled with the built-in algorithms on
   -- first lookup, same content whoever triggers it; user registration is an explicit API call
-  ("SimTK::CollisionDetectionAlgorithm::algorithmMap", idempotentRegistry),
+  (key! "SimTK::CollisionDetectionAlgorithm::algorithmMap", idempotentRegistry),
   -- printing / message buffers / output-file throttling of vendored optimizers (Ipopt banner flag, c-cmaes message
   -- buffers `s`, `sTestOutString`, write throttles), CFSQP output file pointer
-  ("SimTKIpopt::message_printed", diagnostics), ("s.N", diagnostics), ("sTestOutString.N", diagnostics),
-  ("countiterlastwritten.N", diagnostics), ("flglockprint.N", diagnostics), ("flglockwrite.N", diagnostics),
-  ("maxdiffitertowrite.N", diagnostics), ("cfsqp_fptr", diagnostics),
+  (key! "SimTKIpopt::message_printed", diagnostics), (key! "s.N", diagnostics), (key! "sTestOutString.N", diagnostics),
+  (key! "countiterlastwritten.N", diagnostics), (key! "flglockprint.N", diagnostics), (key! "flglockwrite.N", diagnostics),
+  (key! "maxdiffitertowrite.N", diagnostics), (key! "cfsqp_fptr", diagnostics),
   -- SUNDIALS Fortran-to-C interface vectors (fnvector_serial.c): only touched by the FNV* Fortran entry points
-  ("F2C_CVODE_vec", vendoredUnused), ("F2C_CVODE_vecB", vendoredUnused), ("F2C_CVODE_vecQ", vendoredUnused),
-  ("F2C_CVODE_vecQB", vendoredUnused), ("F2C_CVODE_vecS", vendoredUnused), ("F2C_IDA_vec", vendoredUnused),
-  ("F2C_IDA_vecB", vendoredUnused), ("F2C_IDA_vecQ", vendoredUnused), ("F2C_IDA_vecQB", vendoredUnused),
-  ("F2C_IDA_vecS", vendoredUnused), ("F2C_KINSOL_vec", vendoredUnused),
+  (key! "F2C_CVODE_vec", vendoredUnused), (key! "F2C_CVODE_vecB", vendoredUnused), (key! "F2C_CVODE_vecQ", vendoredUnused),
+  (key! "F2C_CVODE_vecQB", vendoredUnused), (key! "F2C_CVODE_vecS", vendoredUnused), (key! "F2C_IDA_vec", vendoredUnused),
+  (key! "F2C_IDA_vecB", vendoredUnused), (key! "F2C_IDA_vecQ", vendoredUnused), (key! "F2C_IDA_vecQB", vendoredUnused),
+  (key! "F2C_IDA_vecS", vendoredUnused), (key! "F2C_KINSOL_vec", vendoredUnused),
   -- Visualizer process plumbing
-  ("inPipe", visualizerIO),
+  (key! "inPipe", visualizerIO),
   -- toolchain / runtime artefacts
-  ("std::__ioinit", toolchain), ("completed.N", toolchain), ("__dso_handle", toolchain), ("__TMC_END__", toolchain),
-  ("__tls_guard", toolchain),
-  ("DW.ref.__gxx_personality_v0", toolchain), ("DW.ref._ZTISt9exception", toolchain), ("DW.ref._ZTISt9bad_alloc", toolchain),
-  ("DW.ref._ZTIN5SimTK9Exception4BaseE", toolchain), ("DW.ref._ZTIN5SimTK9Exception15OptimizerFailedE", toolchain),
-  ("DW.ref._ZTI18ReadingInterrupted", toolchain),
-  ("DW.ref._ZTIN10SimTKIpopt11TOO_FEW_DOFE", toolchain), ("DW.ref._ZTIN10SimTKIpopt14INTERNAL_ABORTE", toolchain),
-  ("DW.ref._ZTIN10SimTKIpopt14IpoptExceptionE", toolchain), ("DW.ref._ZTIN10SimTKIpopt14OPTION_INVALIDE", toolchain),
-  ("DW.ref._ZTIN10SimTKIpopt18LOCALLY_INFEASIBLEE", toolchain), ("DW.ref._ZTIN10SimTKIpopt18RESTORATION_FAILEDE", toolchain),
-  ("DW.ref._ZTIN10SimTKIpopt18TINY_STEP_DETECTEDE", toolchain), ("DW.ref._ZTIN10SimTKIpopt21RESTORATION_USER_STOPE", toolchain),
-  ("DW.ref._ZTIN10SimTKIpopt23STEP_COMPUTATION_FAILEDE", toolchain), ("DW.ref._ZTIN10SimTKIpopt24ACCEPTABLE_POINT_REACHEDE", toolchain),
-  ("DW.ref._ZTIN10SimTKIpopt24INVALID_STDINTERFACE_NLPE", toolchain), ("DW.ref._ZTIN10SimTKIpopt26FEASIBILITY_PROBLEM_SOLVEDE", toolchain),
-  ("DW.ref._ZTIN10SimTKIpopt28RESTORATION_MAXITER_EXCEEDEDE", toolchain),
-  ("DW.ref._ZTIN10SimTKIpopt39RESTORATION_CONVERGED_TO_FEASIBLE_POINTE", toolchain),
-  ("DW.ref._ZTIN10SimTKIpopt8IpoptNLP10Eval_ErrorE", toolchain)
+  (key! "std::__ioinit", toolchain), (key! "completed.N", toolchain), (key! "__dso_handle", toolchain), (key! "__TMC_END__", toolchain),
+  (key! "__tls_guard", toolchain),
+  (key! "DW.ref.__gxx_personality_v0", toolchain), (key! "DW.ref._ZTISt9exception", toolchain), (key! "DW.ref._ZTISt9bad_alloc", toolchain),
+  (key! "DW.ref._ZTIN5SimTK9Exception4BaseE", toolchain), (key! "DW.ref._ZTIN5SimTK9Exception15OptimizerFailedE", toolchain),
+  (key! "DW.ref._ZTI18ReadingInterrupted", toolchain),
+  (key! "DW.ref._ZTIN10SimTKIpopt11TOO_FEW_DOFE", toolchain), (key! "DW.ref._ZTIN10SimTKIpopt14INTERNAL_ABORTE", toolchain),
+  (key! "DW.ref._ZTIN10SimTKIpopt14IpoptExceptionE", toolchain), (key! "DW.ref._ZTIN10SimTKIpopt14OPTION_INVALIDE", toolchain),
+  (key! "DW.ref._ZTIN10SimTKIpopt18LOCALLY_INFEASIBLEE", toolchain), (key! "DW.ref._ZTIN10SimTKIpopt18RESTORATION_FAILEDE", toolchain),
+  (key! "DW.ref._ZTIN10SimTKIpopt18TINY_STEP_DETECTEDE", toolchain), (key! "DW.ref._ZTIN10SimTKIpopt21RESTORATION_USER_STOPE", toolchain),
+  (key! "DW.ref._ZTIN10SimTKIpopt23STEP_COMPUTATION_FAILEDE", toolchain), (key! "DW.ref._ZTIN10SimTKIpopt24ACCEPTABLE_POINT_REACHEDE", toolchain),
+  (key! "DW.ref._ZTIN10SimTKIpopt24INVALID_STDINTERFACE_NLPE", toolchain), (key! "DW.ref._ZTIN10SimTKIpopt26FEASIBILITY_PROBLEM_SOLVEDE", toolchain),
+  (key! "DW.ref._ZTIN10SimTKIpopt28RESTORATION_MAXITER_EXCEEDEDE", toolchain),
+  (key! "DW.ref._ZTIN10SimTKIpopt39RESTORATION_CONVERGED_TO_FEASIBLE_POINTE", toolchain),
+  (key! "DW.ref._ZTIN10SimTKIpopt8IpoptNLP10Eval_ErrorE", toolchain)
 ]
 
 /-! ### checking the inventory against the allow-list
@@ -153,18 +155,18 @@ def allowlist : List (String × Cls) := [
 an efficient *decision procedure* — `check_sound` shows that acceptance implies membership whatever the order is. -/
 
 /-- skip allow-list entries until the one for `nm`; returns its class and the rest *including* that entry -/
-def seek (nm : String) : List (String × Cls) → Option (Cls × List (String × Cls))
+def seek (nm : Nat) : List (Nat × Cls) → Option (Cls × List (Nat × Cls))
   | [] => none
   | (a, c) :: rest => if nm = a then some (c, (a, c) :: rest) else seek nm rest
 
 /-- every symbol is found (walking forward only) and satisfies `p` with its class -/
-def check (p : Sym → Cls → Bool) : List Sym → List (String × Cls) → Bool
+def check (p : Sym → Cls → Bool) : List Sym → List (Nat × Cls) → Bool
   | [], _ => true
-  | x :: xs, al => match seek x.name al with
+  | x :: xs, al => match seek x.key al with
     | none => false
     | some (c, al') => p x c && check p xs al'
 
-theorem seek_sound {nm : String} : ∀ {al : List (String × Cls)} {c : Cls} {al' : List (String × Cls)},
+theorem seek_sound {nm : Nat} : ∀ {al : List (Nat × Cls)} {c : Cls} {al' : List (Nat × Cls)},
     seek nm al = some (c, al') → (nm, c) ∈ al ∧ ∀ e ∈ al', e ∈ al := by
   intro al
   induction al with
@@ -181,15 +183,15 @@ theorem seek_sound {nm : String} : ∀ {al : List (String × Cls)} {c : Cls} {al
       obtain ⟨h1, h2⟩ := ih h
       exact ⟨List.mem_cons_of_mem _ h1, fun e he => List.mem_cons_of_mem _ (h2 e he)⟩
 
-theorem check_sound (p : Sym → Cls → Bool) : ∀ (xs : List Sym) (al : List (String × Cls)),
-    check p xs al = true → ∀ x ∈ xs, ∃ c, (x.name, c) ∈ al ∧ p x c = true := by
+theorem check_sound (p : Sym → Cls → Bool) : ∀ (xs : List Sym) (al : List (Nat × Cls)),
+    check p xs al = true → ∀ x ∈ xs, ∃ c, (x.key, c) ∈ al ∧ p x c = true := by
   intro xs
   induction xs with
   | nil => intro al _ x hx; cases hx
   | cons y ys ih =>
     intro al h x hx
     unfold check at h
-    cases hs : seek y.name al with
+    cases hs : seek y.key al with
     | none => simp [hs] at h
     | some r =>
       obtain ⟨c, al'⟩ := r
@@ -211,8 +213,8 @@ def guardClassOk : Cls → Bool
 toolchain's TLS guard) and per-thread scratch is thread-local -/
 def entryOk (s : Sym) (c : Cls) : Bool :=
   (!s.guard || guardClassOk c) &&
-  (!(s.sect == ".tbss" || s.sect == ".tdata") || c == threadScratch || c == toolchain) &&
-  (!(c == threadScratch) || s.sect == ".tbss" || s.sect == ".tdata")
+  (!(s.sect == tbss || s.sect == tdata) || c == threadScratch || c == toolchain) &&
+  (!(c == threadScratch) || s.sect == tbss || s.sect == tdata)
 
 set_option maxRecDepth 100000 in
 /-- the kernel evaluates the walk over the inventory regenerated from the binaries -/
@@ -220,14 +222,14 @@ theorem inventory_check : check entryOk Gen.statics allowlist = true := by decid
 
 /-- **Translator-tied obligation.**  Every writable static-storage object of the rebuilt libraries is in the
 reviewed allow-list. -/
-theorem all_statics_classified : ∀ s ∈ Gen.statics, ∃ c, (s.name, c) ∈ allowlist := by
+theorem all_statics_classified : ∀ s ∈ Gen.statics, ∃ c, (s.key, c) ∈ allowlist := by
   intro s hs
   obtain ⟨c, hc, _⟩ := check_sound entryOk _ _ inventory_check s hs
   exact ⟨c, hc⟩
 
 /-- guard variables belong to objects classified as initialised-at-first-use -/
 theorem guards_are_first_use_inits :
-    ∀ s ∈ Gen.statics, s.guard = true → ∃ c, (s.name, c) ∈ allowlist ∧ guardClassOk c = true := by
+    ∀ s ∈ Gen.statics, s.guard = true → ∃ c, (s.key, c) ∈ allowlist ∧ guardClassOk c = true := by
   intro s hs hg
   obtain ⟨c, hc, hp⟩ := check_sound entryOk _ _ inventory_check s hs
   refine ⟨c, hc, ?_⟩
@@ -238,14 +240,14 @@ theorem guards_are_first_use_inits :
 
 /-- everything in `.tbss/.tdata` is classified as per-thread scratch (or is the toolchain's TLS guard) -/
 theorem tls_is_thread_scratch :
-    ∀ s ∈ Gen.statics, (s.sect = ".tbss" ∨ s.sect = ".tdata") →
-      ∃ c, (s.name, c) ∈ allowlist ∧ (c = threadScratch ∨ c = toolchain) := by
+    ∀ s ∈ Gen.statics, (s.sect = tbss ∨ s.sect = tdata) →
+      ∃ c, (s.key, c) ∈ allowlist ∧ (c = threadScratch ∨ c = toolchain) := by
   intro s hs hsect
   obtain ⟨c, hc, hp⟩ := check_sound entryOk _ _ inventory_check s hs
   refine ⟨c, hc, ?_⟩
   simp only [entryOk, Bool.and_eq_true, Bool.or_eq_true, Bool.not_eq_true', beq_iff_eq] at hp
   rcases hp.1.2 with (h | h) | h
-  · have : (s.sect == ".tbss" || s.sect == ".tdata") = true := by
+  · have : (s.sect == tbss || s.sect == tdata) = true := by
       rcases hsect with h' | h' <;> simp [h']
     rw [this] at h; cases h
   · left; exact h
@@ -254,9 +256,9 @@ theorem tls_is_thread_scratch :
 set_option maxRecDepth 100000 in
 /-- the extraction is not vacuous: the well-known mutable statics are in the inventory -/
 theorem inventory_has_anchors :
-    (Gen.statics.any (fun s => s.name == "SimTK::Random::RandomImpl::nextSeed")) = true ∧
-    (Gen.statics.any (fun s => s.name == "SimTK::CollisionDetectionAlgorithm::algorithmMap")) = true ∧
-    (Gen.statics.any (fun s => s.name == "SimTK::Pi")) = true ∧ 100 ≤ Gen.statics.length := by decide
+    (Gen.statics.any (fun s => s.key == key! "SimTK::Random::RandomImpl::nextSeed")) = true ∧
+    (Gen.statics.any (fun s => s.key == key! "SimTK::CollisionDetectionAlgorithm::algorithmMap")) = true ∧
+    (Gen.statics.any (fun s => s.key == key! "SimTK::Pi")) = true ∧ 100 ≤ Gen.statics.length := by decide
 
 /-! ### isolation in the process model -/
 
